@@ -157,7 +157,15 @@ def _harvest():
             ("1.0.0", "snote(n11,[B,b],-1,1:2,0,1/4,1.0000,2.0000,[v1,staff2])-note(n11,10,480,960,64,0,0)."),
             ("1.0.0", "snote(n12,[G,n],9,1:3,0,1/4,2.0000,3.0000,[v1,staff1])-deletion."),
             ("0.5.0", "snote(n10,[c,n],-1,1:1,0,1/4,0.0,1.0,[s])-deletion."),
-            ("0.3.0", "snote(n10,[a,#],-1,1:1,0,1/4,0.0,1.0,[s])-deletion.")]
+            ("0.3.0", "snote(n10,[a,#],-1,1:1,0,1/4,0.0,1.0,[s])-deletion."),
+            # quoted text values of the old versions with an apostrophe, a comma-free phrase, digits
+            ("0.5.0", "info(piece,'L'isle joyeuse')."),
+            ("0.3.0", "info(composer,'Claude Debussy')."),
+            ("0.4.0", "info(performer,'O'Brien')."),
+            # every sharp and flat minor key in the 1.0.0 spelling, alone and as the alternative after a slash
+            ("1.0.0", "scoreprop(keySignature,F#m,1:1,0,0.0000)."), ("1.0.0", "scoreprop(keySignature,C#m,1:1,0,0.0000)."), ("1.0.0", "scoreprop(keySignature,G#m,1:1,0,0.0000)."),
+            ("1.0.0", "scoreprop(keySignature,D#m,1:1,0,0.0000)."), ("1.0.0", "scoreprop(keySignature,A#m,1:1,0,0.0000)."), ("1.0.0", "scoreprop(keySignature,Bbm,1:1,0,0.0000)."),
+            ("1.0.0", "scoreprop(keySignature,A/F#m,1:1,0,0.0000)."), ("1.0.0", "scoreprop(keySignature,E/C#m,2:1,0,4.0000).")]
     return out
 
 
